@@ -218,6 +218,9 @@ func (i *interpreter) symBinop(op token.Token, x, y value) value {
 		default:
 			o = opUrem
 		}
+		if OptArith {
+			return mkVal(kx, c.divNarrow(o, tx, ty)) // models_c35.go: c.bin(o, tx, ty) at the needed width
+		}
 		return mkVal(kx, c.bin(o, tx, ty))
 	case token.AND:
 		return mkVal(kx, c.bin(opBvand, tx, ty))
@@ -327,6 +330,12 @@ func (i *interpreter) symConv(dst types.BasicKind, x sym) value {
 	}
 	return mkVal(dst, t)
 }
+
+// OptArith enables the opt-in arithmetic optimisations of models_c34/c35
+// (if-conversion in listed functions, division narrowing, interval-based
+// bounds-check elision, mux-tree loads from constant tables). Off by default;
+// the registries of C34 and C35 switch it on with -opt-arith.
+var OptArith bool
 
 type runtimeError string
 
